@@ -2313,8 +2313,8 @@ func ackTypes(t int8) []int8 {
 //
 // Entries and gaps are sorted by offset before coalescing so that
 // contiguous same-type ranges merge regardless of insertion order.
-// The two are built separately (gaps are acked immediately so they
-// rarely coalesce with user entries).
+// Gap ranges are merged into the entry ranges in offset order (gaps are
+// acked immediately so they rarely coalesce with user entries).
 func buildAckRanges(entries []*shareAckState, gaps []shareAckRange) (ranges []shareAckRange, hasRenew bool) {
 	slices.SortFunc(entries, func(a, b *shareAckState) int {
 		return cmp.Compare(a.offset, b.offset)
@@ -2340,6 +2340,13 @@ func buildAckRanges(entries []*shareAckState, gaps []shareAckRange) (ranges []sh
 		lastOffset = e.offset
 		if t == int8(AckRenew) {
 			hasRenew = true
+		}
+		// Gap ranges below this entry go first: the broker requires
+		// the acknowledgement batches of a partition in ascending order
+		// and rejects the whole partition otherwise.
+		for len(gaps) > 0 && gaps[0].firstOffset < e.offset {
+			ranges = coalesceAppendRange(ranges, gaps[0])
+			gaps = gaps[1:]
 		}
 		ranges = coalesceAppendRange(ranges, shareAckRange{
 			firstOffset:  e.offset,
